@@ -340,7 +340,7 @@ func mkEnc(quality, method, mode, effort int, wOverride, hOverride *int) func(w,
 // goDecLine runs DecodeAlpha and builds the decoder oracle the model needs for the lossless method.
 func goDecLine(data []byte, w, h int) (line, goL string) {
 	oracle := "-"
-	goL, _ = guard(func() string {
+	goL, _ = guardT(func() string { // deadline: a decode that does not return is the line "hang"
 		if len(data) > 0 && data[0]&3 == 1 && w > 0 && h > 0 && uint64(w)*uint64(h) <= 1<<30 {
 			img, err := verifapi.DecodeVP8L(verifapi.AlphaVP8LStream(data[1:], w, h))
 			if err != nil {
@@ -461,6 +461,18 @@ func (b *alBatch) run() error {
 		rep.Eval(len(it.line) > 24, []byte(it.line))
 		if i%1499 == 0 {
 			rep.Sample(map[string]any{"line": short(it.line, 160), "go": it.goL, "lean": lean[i]})
+		}
+		if it.goL == "skipped" { // not run: an earlier decode hung and the suite is winding down
+			continue
+		}
+		if it.goL == "hang" {
+			in := map[string]any{"op": "alline", "line": it.line}
+			rep.Add(hangFinding("DecodeAlpha", "alpha.DecodeAlpha / the VP8L decoder on an ALPH payload ("+it.kind+"); model: "+short(lean[i], 120), in))
+			if strings.HasPrefix(lean[i], "ok") {
+				rep.Add(Finding{Kind: "property", Property: "C07", Signature: "alpha:decode-hang:" + it.kind,
+					Detail: "the model decodes the ALPH payload, alpha.DecodeAlpha does not return: lean=" + short(lean[i], 200), Input: in})
+			}
+			continue
 		}
 		if lean[i] == it.goL {
 			continue
@@ -768,9 +780,19 @@ func runE2E(rep *Report, cases []e2eCase) {
 				img := GenImage(r, c.w, c.h, c.cls, c.acls)
 				desc := imgDesc(c.w, c.h, c.cls, c.acls) + " " + c.o.String()
 				var what, detail string
-				_, pm := guard(func() string { what, detail = e2eCheck(img, c.o); return "" })
+				var w2, d2 string
+				st, pm := guardT(func() string { w2, d2 = e2eCheck(img, c.o); return "" })
+				if st == "skipped" {
+					continue
+				}
+				what, detail = w2, d2
 				if pm != "" {
 					what, detail = "panic", pm
+				}
+				if st == "hang" {
+					what, detail = "hang", fmt.Sprintf("webp.Encode -> webp.Decode did not return within %v", hangLimit)
+					rep.Add(hangFinding("Decode", "webp.Encode -> webp.Decode of "+desc, map[string]any{"op": "alpha-e2e", "class": imgDesc(c.w, c.h, c.cls, c.acls), "opts": c.o.String(),
+						"w": c.w, "h": c.h, "pix": hex.EncodeToString(img.Pix), "what": "hang"}))
 				}
 				rep.Eval(c.acls != AlphaNone && c.w*c.h > 1, []byte(desc))
 				rep.Count("e2e:alpha:" + alphaClassNames[c.acls])
@@ -795,7 +817,7 @@ func runE2E(rep *Report, cases []e2eCase) {
 					continue
 				}
 				small := img
-				if what != "panic" {
+				if what != "panic" && what != "hang" {
 					small, detail = shrinkE2E(img, c.o, what)
 				}
 				rep.Add(Finding{Kind: "property", Property: "C07", Signature: "alpha:" + what + ":" + c.o.class(),
@@ -1053,6 +1075,10 @@ func suiteAlpha(rep *Report) error {
 	if err := b.run(); err != nil {
 		return err
 	}
+	if hangSeen.Load() {
+		rep.Notes = append(rep.Notes, "suite stopped early: a Go decode call did not return (see the hang finding)")
+		return nil
+	}
 
 	// ---- Go-only component properties (parallel) ----
 	{
@@ -1100,7 +1126,18 @@ func suiteAlpha(rep *Report) error {
 							chk := func(w, h int, p []byte) string { return checkChunkRT(w, h, p, quality, method, mode, effort) }
 							rep.Eval(true, []byte(fmt.Sprintf("crt %d %d %d %d %d %d %d", quality, method, mode, effort, j.w, j.h, j.k)))
 							rep.Count(fmt.Sprintf("chunk-rt:method%d-mode%d", method, mode))
-							if m, pm := guard(func() string { return chk(j.w, j.h, j.p) }); m != "" {
+							m, pm := guardT(func() string { return chk(j.w, j.h, j.p) })
+							if m == "skipped" {
+								continue
+							}
+							if m == "hang" {
+								in := map[string]any{"op": "alpha-plane", "what": "chunk-roundtrip", "w": j.w, "h": j.h, "plane": hx(j.p), "quality": quality, "method": method, "mode": mode, "effort": effort}
+								rep.Add(hangFinding("DecodeAlpha", fmt.Sprintf("DecodeAlpha(EncodeAlpha(a)) on a %dx%d %s plane, quality %d method %d filter %d effort %d", j.w, j.h, cls, quality, method, mode, effort), in))
+								rep.Add(Finding{Kind: "property", Property: "C07", Signature: fmt.Sprintf("alpha:chunk-roundtrip-hang:c%d-mode%d-m%d", method, mode, effort),
+									Detail: "DecodeAlpha(EncodeAlpha(a)) does not return", Input: in})
+								continue
+							}
+							if m != "" {
 								w, h, p, msg := shrinkPlaneProp(j.w, j.h, j.p, chk)
 								propFinding(rep, "chunk-roundtrip", fmt.Sprintf("c%d-mode%d-m%d", method, mode, effort), msg+" "+pm, w, h, p,
 									map[string]any{"quality": quality, "method": method, "mode": mode, "effort": effort})
@@ -1111,6 +1148,11 @@ func suiteAlpha(rep *Report) error {
 			}(wk)
 		}
 		wg.Wait()
+	}
+
+	if hangSeen.Load() {
+		rep.Notes = append(rep.Notes, "suite stopped early: a Go decode call did not return (see the hang finding)")
+		return nil
 	}
 
 	// ---- (c) END-TO-END ----
